@@ -301,14 +301,18 @@ def natList (t : TokTree) : Option (List Nat) :=
 
 def parseCommaNats (s : Str) : Option (List Nat) := (splitOn ',' s).mapM readNat
 
-/-- default-kind integer literal: magnitude must fit 32 bits (gfortran rejects the rest) -/
-def fitsDefaultInt : Val → Bool
-  | .leaf (.i v) => decide (v.natAbs ≤ 2147483647)
+mutual
+/-- an integer literal has default kind: its magnitude must fit 32 bits, and the value must fit the
+    declared kind (gfortran rejects everything else) -/
+def fitsInt (bits : Nat) : Val → Bool
+  | .leaf (.i v) => decide (v.natAbs ≤ 2147483647) && decide (-(2 ^ (bits - 1) : Int) ≤ v) &&
+      decide (v < (2 ^ (bits - 1) : Int))
   | .leaf _ => true
-  | .arr vs => fitsList vs
-where fitsList : List Val → Bool
+  | .arr vs => fitsIntList bits vs
+def fitsIntList (bits : Nat) : List Val → Bool
   | [] => true
-  | v :: vs => fitsDefaultInt v && fitsList vs
+  | v :: vs => fitsInt bits v && fitsIntList bits vs
+end
 
 /-- `character(len=n)` -/
 def charLen? (decl : Str) : Option Nat := do
@@ -339,10 +343,10 @@ def readFortranLine (l : Str) : Option Sym := do
   let r ← dropPrefix? [',', ' '] r
   let finish (name : Str) (dims : List Nat) (tree : TokTree) : Option Sym := do
     let v ← interp k (cs!".true.") (cs!".false.") tree
-    if ¬ fitsDefaultInt v then none
+    if ¬ fitsInt bits v then none
     match strLens v with
     | [] => pure ()
-    | n :: ns => if ns.all (· = n) ∧ n + 2 ≤ bits + 2 then pure () else none
+    | n :: ns => if ns.all (· = n) ∧ n ≤ bits then pure () else none
     some ⟨name, decl, dims, decide (k = Kind.float ∧ bits > 32), v⟩
   match dropPrefix? (cs!"parameter :: ") r with
   | some r =>
